@@ -64,6 +64,24 @@ class Normalizer(ast.NodeTransformer):
         return self._fold_min(body)
 
     @staticmethod
+    def _unguard_continue(body):
+        """loop body ending `...; if A or B: continue; REST` (a De-Morgan guard: at least one disjunct a comparison or a negation) -> `...; if not A and not B: REST`"""
+        for i in range(len(body) - 2, -1, -1):
+            st = body[i]
+            if isinstance(st, ast.If) and not st.orelse and len(st.body) == 1 and isinstance(st.body[0], ast.Continue) and isinstance(st.test, ast.BoolOp) \
+                    and isinstance(st.test.op, ast.Or) and any(isinstance(v, ast.Compare) or (isinstance(v, ast.UnaryOp) and isinstance(v.op, ast.Not)) for v in st.test.values):
+                rest = body[i + 1:]
+                if not rest:
+                    return body
+                test = ast.copy_location(ast.BoolOp(op=ast.And(), values=[negate(v) for v in st.test.values]), st.test)
+                new = ast.copy_location(ast.If(test=test, body=rest, orelse=[]), st)
+                ast.fix_missing_locations(new)
+                return body[:i] + [new]
+            if isinstance(st, (ast.For, ast.While, ast.Try, ast.With)) or (isinstance(st, ast.If) and any(isinstance(x, (ast.Continue, ast.Break)) for x in ast.walk(st))):
+                return body
+        return body
+
+    @staticmethod
     def _fold_min(body):
         """`x = a; if b < x: x = b`  ->  `x = min(a, b)`   (two-argument min written out; a, b plain names / attributes / constants)"""
         def simple(e):
@@ -73,7 +91,8 @@ class Normalizer(ast.NodeTransformer):
         while i < len(body):
             st = body[i]
             nx = body[i + 1] if i + 1 < len(body) else None
-            if isinstance(st, ast.Assign) and len(st.targets) == 1 and isinstance(st.targets[0], ast.Name) and simple(st.value) \
+            if isinstance(st, ast.Assign) and len(st.targets) == 1 and isinstance(st.targets[0], ast.Name) \
+                    and not any(isinstance(x_, ast.Name) and x_.id == st.targets[0].id for x_ in ast.walk(st.value)) \
                     and isinstance(nx, ast.If) and not nx.orelse and len(nx.body) == 1 and isinstance(nx.body[0], ast.Assign) \
                     and len(nx.body[0].targets) == 1 and isinstance(nx.body[0].targets[0], ast.Name) and nx.body[0].targets[0].id == st.targets[0].id \
                     and isinstance(nx.test, ast.Compare) and len(nx.test.ops) == 1 and simple(nx.body[0].value):
@@ -82,20 +101,133 @@ class Normalizer(ast.NodeTransformer):
                 l, op, r = nx.test.left, nx.test.ops[0], nx.test.comparators[0]
                 fits = (isinstance(op, (ast.Lt, ast.LtE)) and ast.dump(l) == ast.dump(b) and isinstance(r, ast.Name) and r.id == x) or \
                     (isinstance(op, (ast.Gt, ast.GtE)) and ast.dump(r) == ast.dump(b) and isinstance(l, ast.Name) and l.id == x)
-                if fits and not (isinstance(b, ast.Name) and b.id == x):
+                if fits and not (isinstance(b, ast.Name) and b.id == x) and (simple(st.value) or isinstance(st.value, (ast.BinOp, ast.Call))):
                     call = ast.Call(func=ast.Name(id='min', ctx=ast.Load()), args=[st.value, b], keywords=[])
                     new = ast.Assign(targets=st.targets, value=ast.copy_location(call, st.value))
                     out.append(ast.copy_location(new, st))
                     i += 2
                     continue
+                # `x = a; if x < b: x = b` -> `x = max(b, a)`  (the lower clip written out)
+                fits_max = (isinstance(op, (ast.Gt, ast.GtE)) and ast.dump(l) == ast.dump(b) and isinstance(r, ast.Name) and r.id == x) or \
+                    (isinstance(op, (ast.Lt, ast.LtE)) and ast.dump(r) == ast.dump(b) and isinstance(l, ast.Name) and l.id == x)
+                if fits_max and not (isinstance(b, ast.Name) and b.id == x) and (simple(st.value) or isinstance(st.value, (ast.BinOp, ast.Call))):
+                    call = ast.Call(func=ast.Name(id='max', ctx=ast.Load()), args=[b, st.value], keywords=[])
+                    new = ast.Assign(targets=st.targets, value=ast.copy_location(call, st.value))
+                    out.append(ast.copy_location(new, st))
+                    i += 2
+                    continue
+            # `a, x = (E1, E2); if b < x: x = b` -> `a, x = (E1, min(E2, b))`  (the clip applied to one element of a pair)
+            if isinstance(st, ast.Assign) and len(st.targets) == 1 and isinstance(st.targets[0], ast.Tuple) and isinstance(st.value, ast.Tuple) \
+                    and len(st.targets[0].elts) == len(st.value.elts) and all(isinstance(e_, ast.Name) for e_ in st.targets[0].elts) \
+                    and isinstance(nx, ast.If) and not nx.orelse and len(nx.body) == 1 and isinstance(nx.body[0], ast.Assign) \
+                    and len(nx.body[0].targets) == 1 and isinstance(nx.body[0].targets[0], ast.Name) \
+                    and isinstance(nx.test, ast.Compare) and len(nx.test.ops) == 1 and simple(nx.body[0].value):
+                names_ = [e_.id for e_ in st.targets[0].elts]
+                x = nx.body[0].targets[0].id
+                if names_.count(x) == 1:
+                    k = names_.index(x)
+                    b = nx.body[0].value
+                    l, op, r = nx.test.left, nx.test.ops[0], nx.test.comparators[0]
+                    is_min = (isinstance(op, (ast.Lt, ast.LtE)) and ast.dump(l) == ast.dump(b) and isinstance(r, ast.Name) and r.id == x) or \
+                        (isinstance(op, (ast.Gt, ast.GtE)) and ast.dump(r) == ast.dump(b) and isinstance(l, ast.Name) and l.id == x)
+                    is_max = (isinstance(op, (ast.Gt, ast.GtE)) and ast.dump(l) == ast.dump(b) and isinstance(r, ast.Name) and r.id == x) or \
+                        (isinstance(op, (ast.Lt, ast.LtE)) and ast.dump(r) == ast.dump(b) and isinstance(l, ast.Name) and l.id == x)
+                    others_read = any(isinstance(y_, ast.Name) and y_.id in names_ for y_ in ast.walk(b))
+                    if (is_min or is_max) and not others_read:
+                        fn_ = 'min' if is_min else 'max'
+                        args_ = [st.value.elts[k], b] if is_min else [b, st.value.elts[k]]
+                        st.value.elts[k] = ast.copy_location(ast.Call(func=ast.Name(id=fn_, ctx=ast.Load()), args=args_, keywords=[]), st.value.elts[k])
+                        out.append(st)
+                        i += 2
+                        continue
             out.append(st)
             i += 1
         return out
+
+    def visit_Compare(self, node):
+        """`x.find(y) != 0` -> `not x.startswith(y)`, `x.find(y) == 0` -> `x.startswith(y)` (text / bytes: find gives 0 exactly when the text starts with y)"""
+        self.generic_visit(node)
+        if len(node.ops) == 1 and isinstance(node.ops[0], (ast.Eq, ast.NotEq)) and isinstance(node.comparators[0], ast.Constant) and node.comparators[0].value == 0 \
+                and type(node.comparators[0].value) is int and isinstance(node.left, ast.Call) and isinstance(node.left.func, ast.Attribute) and node.left.func.attr == 'find' \
+                and len(node.left.args) == 1 and not node.left.keywords:
+            call = ast.copy_location(ast.Call(func=ast.copy_location(ast.Attribute(value=node.left.func.value, attr='startswith', ctx=ast.Load()), node.left.func),
+                                              args=node.left.args, keywords=[]), node)
+            if isinstance(node.ops[0], ast.Eq):
+                return call
+            return ast.copy_location(ast.UnaryOp(op=ast.Not(), operand=call), node)
+        return node
+
+    def visit_IfExp(self, node):
+        """`a if a < b else b` -> `min(a, b)`, `a if a > b else b` -> `max(a, b)` (and the mirrored spellings) for plain names / attributes / constants"""
+        self.generic_visit(node)
+
+        def simple(e):
+            return isinstance(e, (ast.Name, ast.Constant)) or (isinstance(e, ast.Attribute) and simple(e.value))
+        t = node.test
+        if isinstance(t, ast.Compare) and len(t.ops) == 1 and isinstance(t.ops[0], (ast.Lt, ast.LtE, ast.Gt, ast.GtE)) and simple(node.body) and simple(node.orelse):
+            l, r = ast.dump(t.left), ast.dump(t.comparators[0])
+            bd, od = ast.dump(node.body), ast.dump(node.orelse)
+            if {l, r} == {bd, od} and l != r:
+                less = isinstance(t.ops[0], (ast.Lt, ast.LtE))
+                # the body is chosen when the test holds: body == left and `<`  -> the smaller one
+                picks_smaller = (bd == l) == less
+                fn = 'min' if picks_smaller else 'max'
+                # keep the argument order of the usual spelling: (body, orelse) for min, the same for max
+                call = ast.Call(func=ast.Name(id=fn, ctx=ast.Load()), args=[node.orelse, node.body] if False else [node.body, node.orelse], keywords=[])
+                return ast.copy_location(call, node)
+        return node
+
+    def visit_Return(self, node):
+        """`return W(.., x, ..) if c else x` (wrap when ..) -> `if c: x = W(.., x, ..)` + `return x`"""
+        self.generic_visit(node)
+        v = node.value
+        if isinstance(v, ast.IfExp) and isinstance(v.orelse, ast.Name) and isinstance(v.body, ast.Call) and isinstance(v.test, ast.Name) \
+                and any(isinstance(a, ast.Name) and a.id == v.orelse.id for a in v.body.args) \
+                and isinstance(v.body.func, ast.Name) and v.body.func.id.startswith('_'):
+            x = v.orelse.id
+            asg = ast.copy_location(ast.Assign(targets=[ast.Name(id=x, ctx=ast.Store())], value=v.body), node)
+            cond = ast.copy_location(ast.If(test=v.test, body=[asg], orelse=[]), node)
+            ret = ast.copy_location(ast.Return(value=ast.Name(id=x, ctx=ast.Load())), node)
+            for n_ in (cond, ret):
+                ast.fix_missing_locations(n_)
+            return [cond, ret]
+        return node
+
+    @staticmethod
+    def _format_to_fstring(node):
+        """`'{}({})'.format(a, b)` with auto-numbered plain fields only -> f'{a}({b})'"""
+        if not (isinstance(node.func, ast.Attribute) and node.func.attr == 'format' and isinstance(node.func.value, ast.Constant) and isinstance(node.func.value.value, str)
+                and node.args and not node.keywords and not any(isinstance(a, ast.Starred) for a in node.args)):
+            return None
+        import string
+        try:
+            parts = list(string.Formatter().parse(node.func.value.value))
+        except ValueError:
+            return None
+        vals, k = [], 0
+        for (lit, fname, spec, conv) in parts:
+            if lit:
+                vals.append(ast.Constant(value=lit))
+            if fname is None:
+                continue
+            if fname != '' or spec or conv:
+                return None
+            if k >= len(node.args):
+                return None
+            vals.append(ast.FormattedValue(value=node.args[k], conversion=-1, format_spec=None))
+            k += 1
+        if k != len(node.args):
+            return None
+        return ast.copy_location(ast.JoinedStr(values=vals), node)
 
     def visit_Call(self, node):
         """`all(f(x) for f in (a, b))` -> `a(x) and b(x)`, `any(..)` -> `.. or ..` over a literal tuple / list of names (same order, same short circuit;
         the value is used as a truth value wherever a rule looks at it)"""
         self.generic_visit(node)
+        fs_ = self._format_to_fstring(node)
+        if fs_ is not None:
+            ast.fix_missing_locations(fs_)
+            return fs_
         if isinstance(node.func, ast.Name) and node.func.id in ('all', 'any') and len(node.args) == 1 and not node.keywords \
                 and isinstance(node.args[0], (ast.GeneratorExp, ast.ListComp)) and len(node.args[0].generators) == 1:
             gen = node.args[0].generators[0]
@@ -134,18 +266,33 @@ class Normalizer(ast.NodeTransformer):
     def visit_While(self, node):
         self.generic_visit(node)
         node.test = self._strip_double_not(node.test)
-        node.body = self._clean_body(node.body)
+        node.body = self._unguard_continue(self._clean_body(node.body))
         # `while True: if c: break; body`  ->  `while not c: body`   (no else clause on either)
         if isinstance(node.test, ast.Constant) and node.test.value is True and not node.orelse and len(node.body) >= 2:
             first = node.body[0]
             if isinstance(first, ast.If) and not first.orelse and len(first.body) == 1 and isinstance(first.body[0], ast.Break):
                 node.test = negate(first.test)
                 node.body = node.body[1:]
+                return node
+            # the loop-and-a-half `while True: x = E; if c: break; REST` is the priming-read loop `x = E; while not c: REST; x = E`
+            second = node.body[1]
+            if isinstance(first, ast.Assign) and len(first.targets) == 1 and isinstance(first.targets[0], ast.Name) and isinstance(first.value, ast.Call) \
+                    and isinstance(second, ast.If) and not second.orelse and len(second.body) == 1 and isinstance(second.body[0], ast.Break) and len(node.body) >= 3 \
+                    and not any(isinstance(x, ast.Continue) for b in node.body[2:] for x in ast.walk(b)) \
+                    and any(isinstance(x, ast.Name) and x.id == first.targets[0].id for x in ast.walk(second.test)):
+                import copy as _copy
+                again = _copy.deepcopy(first)
+                test = negate(second.test)
+                if isinstance(test, ast.UnaryOp) and isinstance(test.op, ast.Not) and isinstance(test.operand, ast.UnaryOp) and isinstance(test.operand.op, ast.Not):
+                    test = test.operand.operand
+                loop = ast.copy_location(ast.While(test=test, body=node.body[2:] + [again], orelse=[]), node)
+                ast.fix_missing_locations(loop)
+                return [first, loop]
         return node
 
     def visit_For(self, node):
         self.generic_visit(node)
-        node.body = self._clean_body(node.body)
+        node.body = self._unguard_continue(self._clean_body(node.body))
         # `for n in itertools.count(k): body`  ->  `n = k - 1; while True: n += 1; body` (a `continue` reaches the increment in
         # both forms; the loop never runs dry, so an else-branch is dead)
         it = node.iter
@@ -185,6 +332,10 @@ class Normalizer(ast.NodeTransformer):
             for st in last.body:
                 if isinstance(st, ast.If) and not st.orelse and len(st.body) == 1 and bare(st.body[0]):
                     st.body = [ast.copy_location(ast.Break(), st.body[0])]
+            # (the returns are breaks now: the loop-and-a-half rule of visit_While gets its chance)
+            again = Normalizer.visit_While(self, last) if isinstance(last.test, ast.Constant) and last.test.value is True else last
+            if isinstance(again, list):
+                node.body[-1:] = again
         self._inline_return_temps(node)
         self._unzip_records(node)
         self._unsentinel(node.body)
